@@ -102,9 +102,12 @@ pub enum Hostile {
     WeirdFlow,
     TransferToSender,
     FramesAfterClose,
+    /// legal, but sized to make disproportionate work show: one delivery cut into hundreds or
+    /// thousands of tiny frames (within the endpoint's session window)
+    DeliveryInManyTinyFrames,
 }
 
-const CATALOGUE: [Hostile; 35] = [
+const CATALOGUE: [Hostile; 36] = [
     Hostile::SizeBelowEight,
     Hostile::BadDoff,
     Hostile::UnknownFrameType,
@@ -140,6 +143,7 @@ const CATALOGUE: [Hostile; 35] = [
     Hostile::WeirdFlow,
     Hostile::TransferToSender,
     Hostile::FramesAfterClose,
+    Hostile::DeliveryInManyTinyFrames,
 ];
 
 fn small_message(uid: u64) -> Vec<u8> {
@@ -323,6 +327,23 @@ fn hostile_bytes(kind: Hostile, ctx: &mut Ctx) -> (Vec<u8>, bool, String) {
             }
             b
         }
+        Hostile::DeliveryInManyTinyFrames => {
+            let n = pick(&[300u32, 1200, 2000]).min(ctx.ep_incoming_window.saturating_sub(2)).max(2);
+            let piece = pick(&[16usize, 48]);
+            note = format!("one delivery in {} frames of {} bytes", n, piece);
+            // a message whose body is one binary of n * piece bytes, cut evenly
+            let mut m = msgs::gen_message(31, 10, 0);
+            m.body = fe2o3_amqp::types::messaging::Body::Value(fe2o3_amqp::types::messaging::AmqpValue(fe2o3_amqp::types::primitives::Value::Binary(vec![0x5au8; n as usize * piece].into())));
+            let payload = msgs::encode(&m);
+            let mut b = Vec::new();
+            let chunks: Vec<&[u8]> = payload.chunks(piece).collect();
+            for (i, c) in chunks.iter().enumerate() {
+                let last = i + 1 == chunks.len();
+                b.extend(transfer_frame(ctx, ctx.h_snd, if i == 0 { Some(ctx.next_id) } else { None }, if i == 0 { Some(vec![9]) } else { None }, !last, c));
+            }
+            ctx.next_id = ctx.next_id.wrapping_add(1);
+            b
+        }
         Hostile::TransferBeyondWindow => {
             let n = ctx.ep_incoming_window + 2;
             note = format!("{} frames of one delivery, window {}", n, ctx.ep_incoming_window);
@@ -427,7 +448,7 @@ fn needs(kind: Hostile) -> (bool, bool) {
     // (needs a session, needs links)
     use Hostile::*;
     match kind {
-        TransferBeyondCredit | TransferBeyondWindow | DuplicateAttachName | DuplicateAttachHandle | DeliveryIdBackwards | ContinuationOtherDeliveryId | TransferWithoutDeliveryId | DetachTwice | TransferToSender | TruncatedThenEof => (true, true),
+        TransferBeyondCredit | TransferBeyondWindow | DeliveryInManyTinyFrames | DuplicateAttachName | DuplicateAttachHandle | DeliveryIdBackwards | ContinuationOtherDeliveryId | TransferWithoutDeliveryId | DetachTwice | TransferToSender | TruncatedThenEof => (true, true),
         DispositionHugeRange | DispositionUnknownIds | FlowUnattachedHandle | TransferUnattachedHandle | BeginOnUsedChannel | AttachHugeHandle | DetachUnknownHandle | EndTwice | WeirdFlow | DeepNesting | MutatedFrame => (true, false),
         _ => (false, false),
     }
